@@ -334,3 +334,17 @@ func TestC12_LatencyDisconnected(t *testing.T) {
 	}()
 	c.Latency()
 }
+
+func TestC04_WhoAccount(t *testing.T) {
+	s := joined(t)
+	defer s.Stop()
+	s.Feed(":alice!a@h ACCOUNT acct")
+	s.Feed(":srv 352 me #chan a h srv alice H :0 Alice")
+	if u := s.C.LookupUser("alice"); u == nil || u.Extras.Account != "acct" {
+		t.Fatalf("a plain WHO reply (which carries no account) cleared the tracked account: %+v", u)
+	}
+	s.Feed(":srv 354 me 1 #chan a h alice 0 :Alice")
+	if u := s.C.LookupUser("alice"); u.Extras.Account != "" {
+		t.Fatalf("WHOX account 0 (logged out) left the stale account %q", u.Extras.Account)
+	}
+}
